@@ -107,6 +107,7 @@ Definition Confined (allowed : list string) (seed_s init_s : string) (t : list e
   (forall site k, In (ESetIter site k) t -> k <> SOtherSink) /\
   (forall site a, In (EPoolRead site a) t -> In site allowed) /\
   (forall site a, In (EPoolWrite site a) t -> In a pool_state) /\
+  (forall site w, ~ In (EEnvGuardedDraw site w) t) /\
   In (ERand seed_s SeedNumpy) t /\ In (ERand seed_s SeedTorch) t /\ In (ESeedCall init_s) t.
 
 Lemma mem_In x l : mem x l = true -> In x l.
@@ -130,15 +131,16 @@ Proof.
     + apply negb_true_iff in H6. assert (E : existsb is_seed_gen t = true).
       { apply existsb_exists. exists (ERand site SeedFromNumpy). split; [exact Hin|reflexivity]. }
       congruence.
-    + apply existsb_exists in H6. destruct H6 as [e [Hine He]]. destruct e as [s g| | | | |]; try discriminate.
+    + apply existsb_exists in H6. destruct H6 as [e [Hine He]]. destruct e as [s g| | | | | |]; try discriminate.
       destruct g; try discriminate. cbn in He. apply String.eqb_eq in He. now subst.
   - intros site k Hin. specialize (H1 _ Hin). cbn in H1. destruct k; cbn in H1; congruence.
   - intros site a Hin. specialize (H1 _ Hin). cbn in H1. now apply mem_In.
   - intros site a Hin. specialize (H1 _ Hin). cbn in H1. now apply mem_In.
-  - apply existsb_exists in H2. destruct H2 as [e [Hin He]]. destruct e as [|s r| | | |]; try discriminate.
+  - intros site w Hin. specialize (H1 _ Hin). cbn in H1. discriminate.
+  - apply existsb_exists in H2. destruct H2 as [e [Hin He]]. destruct e as [|s r| | | | |]; try discriminate.
     destruct r; try discriminate. cbn in He. apply String.eqb_eq in He. now subst.
-  - apply existsb_exists in H3. destruct H3 as [e [Hin He]]. destruct e as [|s r| | | |]; try discriminate.
+  - apply existsb_exists in H3. destruct H3 as [e [Hin He]]. destruct e as [|s r| | | | |]; try discriminate.
     destruct r; try discriminate. cbn in He. apply String.eqb_eq in He. now subst.
-  - apply existsb_exists in H4. destruct H4 as [e [Hin He]]. destruct e as [| | | | |s]; try discriminate.
+  - apply existsb_exists in H4. destruct H4 as [e [Hin He]]. destruct e as [| | | | |s|]; try discriminate.
     cbn in He. apply String.eqb_eq in He. now subst.
 Qed.
